@@ -66,7 +66,7 @@ impl Servers {
         let mut worst = Duration::ZERO;
         for _ in 0..3 {
             let t = Instant::now();
-            let running = start(&this, Xport::Tls, ClientPlan { requests: 0, followup: false, idle_before: Duration::ZERO, collect_after_all_sent: false, big_request: None });
+            let running = start(&this, Xport::Tls, ClientPlan { requests: 0, followup: false, idle_before: Duration::ZERO, collect_after_all_sent: false, big_request: None, collect_delay: Duration::ZERO });
             if let Some(mut peer) = running.peer {
                 _ = peer.send_chunk(server_hello().as_bytes());
                 _ = wait_until(Duration::from_secs(10), || running.log.lock().unwrap().established.is_some());
@@ -94,6 +94,8 @@ pub struct ClientPlan {
     pub collect_after_all_sent: bool,
     /// Some(n): the first request carries a subtree filter of about n bytes
     pub big_request: Option<usize>,
+    /// with `collect_after_all_sent`: wait this long between the last send and the first collect
+    pub collect_delay: Duration,
 }
 
 async fn drive<T>(connect: impl std::future::Future<Output = Result<Session<T>, netconf::Error>>, plan: ClientPlan, log: Arc<Mutex<ClientLog>>)
@@ -134,13 +136,17 @@ where
                 }
             }
         }
+        if !plan.collect_delay.is_zero() {
+            tokio::time::sleep(plan.collect_delay).await;
+        }
         for (k, fut) in futs {
             let r = fut.await.map(|o| o.to_string()).map_err(|e| format!("{e:?}"));
             log.lock().unwrap().results[k] = Some((r, Instant::now()));
         }
     }
     for k in 0..if plan.collect_after_all_sent { 0 } else { plan.requests } {
-        let filter = plan.big_request.filter(|_| k == 0).map(|n| netconf::message::rpc::operation::Filter::Subtree(format!("<configuration><a>{}</a></configuration>", "x".repeat(n))));
+        // with several requests the big one is the last (small requests are outstanding while it is sent)
+        let filter = plan.big_request.filter(|_| k + 1 == plan.requests).map(|n| netconf::message::rpc::operation::Filter::Subtree(format!("<configuration><a>{}</a></configuration>", "x".repeat(n))));
         match session.rpc::<Get, _>(|b| b.filter(filter).finish()).await {
             Ok(fut) => {
                 log.lock().unwrap().requests_sent += 1;
@@ -306,7 +312,7 @@ const PROMPT: Duration = Duration::from_millis(1500);
 /// One segmentation case: hello delivered in chunks, then the pipelined replies in chunks.
 pub fn run_seg(servers: &Servers, case: &SegCase) -> SegOutcome {
     let mut problems = Vec::new();
-    let running = start(servers, case.xport, ClientPlan { requests: case.replies, followup: false, idle_before: Duration::ZERO, collect_after_all_sent: false, big_request: None });
+    let running = start(servers, case.xport, ClientPlan { requests: case.replies, followup: false, idle_before: Duration::ZERO, collect_after_all_sent: false, big_request: None, collect_delay: Duration::ZERO });
     let Some(mut peer) = running.peer else {
         return SegOutcome { problems: vec![("machinery:no-peer".into(), "the client never reached the fake peer".into())], reads_verified: false, observed_reads: vec![] };
     };
@@ -399,7 +405,7 @@ pub fn run_seg(servers: &Servers, case: &SegCase) -> SegOutcome {
 /// Every request must reach the peer and every caller must get its own reply, without further traffic.
 pub fn run_deep(servers: &Servers, xport: Xport, n: usize) -> Vec<(String, String)> {
     let mut problems = Vec::new();
-    let running = start(servers, xport, ClientPlan { requests: n, followup: true, idle_before: Duration::ZERO, collect_after_all_sent: true, big_request: None });
+    let running = start(servers, xport, ClientPlan { requests: n, followup: true, idle_before: Duration::ZERO, collect_after_all_sent: true, big_request: None, collect_delay: Duration::ZERO });
     let Some(mut peer) = running.peer else {
         return vec![("machinery:no-peer".into(), "the client never reached the fake peer".into())];
     };
@@ -622,6 +628,40 @@ pub fn run_c06(report: &mut Report) {
         let n = run_deep_all(report, "C06", &mut servers);
         evaluations += n;
         nontrivial += n;
+        // replies delivered completely, peer hangs up in an orderly way, the caller collects late
+        for xport in [Xport::Tls, Xport::Local, Xport::Ssh] {
+            for kind in [CloseKind::Clean, CloseKind::Eof] {
+                for requests in [1usize, 3] {
+                    evaluations += 1;
+                    nontrivial += 1;
+                    let problems = run_reply_then_close(&servers, xport, kind, requests);
+                    if problems.iter().any(|(c, _)| c == "hang") {
+                        servers.reset_runtime();
+                    }
+                    for (class, what) in problems {
+                        if class.starts_with("machinery") {
+                            panic!("machinery failure in reply-then-close {xport:?}: {what}");
+                        }
+                        report.violation(&format!("C06:{class}:{xport:?}:{kind:?}:collected-after-the-peer-hung-up"), &format!("{xport:?}, {requests} request(s) answered completely, then a {kind:?} close, replies collected 400 ms later: {what}"), json!({"transport": format!("{xport:?}"), "close_kind": format!("{kind:?}"), "requests": requests}));
+                    }
+                }
+            }
+        }
+        // SSH flow control: a reply arrives while a request larger than the peer's channel window is being sent
+        for size in [20_000usize, 60_000] {
+            evaluations += 1;
+            nontrivial += 1;
+            let problems = run_window_pipelined(&servers, size);
+            if !problems.is_empty() {
+                servers.reset_runtime();
+            }
+            for (class, what) in problems {
+                if class.starts_with("machinery") {
+                    panic!("machinery failure in the window case: {what}");
+                }
+                report.violation(&format!("C06:{class}:Ssh:reply-arrives-while-a-request-waits-for-window"), &format!("Ssh, peer window 2 KiB, a small request and one of {size} bytes pipelined, the first answered while the second is still being sent: {what}"), json!({"transport": "Ssh", "request_bytes": size, "peer_window": 2048}));
+            }
+        }
     }
     report.set("evaluations", evaluations);
     report.set("distinct_nontrivial", nontrivial);
@@ -652,7 +692,7 @@ pub struct CloseCase {
 
 pub fn run_close(servers: &Servers, case: &CloseCase) -> Vec<(String, String)> {
     let mut problems = Vec::new();
-    let plan = ClientPlan { requests: case.requests, followup: true, idle_before: if case.idle { Duration::from_millis(150) } else { Duration::ZERO }, collect_after_all_sent: false, big_request: None };
+    let plan = ClientPlan { requests: case.requests, followup: true, idle_before: if case.idle { Duration::from_millis(150) } else { Duration::ZERO }, collect_after_all_sent: false, big_request: None, collect_delay: Duration::ZERO };
     let zero_before = peers::ZERO_READS.load(std::sync::atomic::Ordering::SeqCst);
     let cpu_before = cpu_time();
     let t0 = Instant::now();
@@ -771,7 +811,7 @@ pub fn run_window_hangup(servers: &Servers, request_bytes: usize) -> Vec<(String
     servers.ssh.drain();
     let log: Arc<Mutex<ClientLog>> = Arc::default();
     let (l2, port) = (log.clone(), servers.ssh.port);
-    let plan = ClientPlan { requests: 1, followup: true, idle_before: Duration::ZERO, collect_after_all_sent: false, big_request: Some(request_bytes) };
+    let plan = ClientPlan { requests: 1, followup: true, idle_before: Duration::ZERO, collect_after_all_sent: false, big_request: Some(request_bytes), collect_delay: Duration::ZERO };
     let task = servers.rt.spawn(async move {
         let password: Password = SSH_PASSWORD.parse().unwrap();
         drive(Session::ssh(("127.0.0.1", port), "netconf".to_string(), password), plan, l2).await;
@@ -799,6 +839,93 @@ pub fn run_window_hangup(servers: &Servers, request_bytes: usize) -> Vec<(String
     }
     peer.close(CloseKind::Abort);
     task.abort();
+    problems
+}
+
+/// SSH flow control without a hang-up: a small request, then one larger than the peer's 2 KiB channel window;
+/// the peer answers the first while the second is still trickling in. Both replies must be delivered.
+pub fn run_window_pipelined(servers: &Servers, request_bytes: usize) -> Vec<(String, String)> {
+    let mut problems = Vec::new();
+    servers.ssh.drain();
+    let log: Arc<Mutex<ClientLog>> = Arc::default();
+    let (l2, port) = (log.clone(), servers.ssh.port);
+    let plan = ClientPlan { requests: 2, followup: false, idle_before: Duration::ZERO, collect_after_all_sent: false, big_request: Some(request_bytes), collect_delay: Duration::ZERO };
+    let task = servers.rt.spawn(async move {
+        let password: Password = SSH_PASSWORD.parse().unwrap();
+        drive(Session::ssh(("127.0.0.1", port), "netconf".to_string(), password), plan, l2).await;
+    });
+    let Some(mut peer) = servers.ssh.accept_full(Duration::from_secs(5), Some(SSH_PASSWORD.to_string()), false, None, Some(usize::MAX)).filter(|p| p.established) else {
+        return vec![("machinery:no-peer".into(), "the client never reached the small-window SSH peer".into())];
+    };
+    _ = peer.send_chunk(server_hello().as_bytes());
+    let patience = servers.prompt.max(Duration::from_secs(3));
+    for k in 1..=2usize {
+        if peer.read_message(patience).is_none() {
+            problems.push(("pipelined-request-never-sent".into(), format!("request {k} of 2 never reached the peer completely")));
+            break;
+        }
+        _ = peer.send_chunk(reply_for(k).as_bytes());
+    }
+    if problems.is_empty() && !wait_until(patience, || log.lock().unwrap().done) {
+        let l = log.lock().unwrap();
+        for k in 0..2 {
+            if !matches!(l.results.get(k), Some(Some(_))) {
+                problems.push(("message-never-delivered".into(), format!("the reply to request {} was sent completely but never reached its caller", k + 1)));
+            }
+        }
+    }
+    {
+        let l = log.lock().unwrap();
+        for k in 0..2 {
+            if let Some(Some((r, _))) = l.results.get(k) {
+                if !matches!(r, Ok(v) if *v == tag_for(k + 1)) {
+                    problems.push(("wrong-or-failed-delivery".into(), format!("request {} resolved to {}", k + 1, format!("{r:?}").chars().take(160).collect::<String>())));
+                }
+            }
+        }
+    }
+    peer.close(CloseKind::Abort);
+    task.abort();
+    problems
+}
+
+/// A reply that was delivered completely is still there for a caller that collects it late - after the peer has
+/// already hung up in an orderly way (what a server does after <close-session>).
+pub fn run_reply_then_close(servers: &Servers, xport: Xport, kind: CloseKind, requests: usize) -> Vec<(String, String)> {
+    let mut problems = Vec::new();
+    let running = start(servers, xport, ClientPlan { requests, followup: false, idle_before: Duration::ZERO, collect_after_all_sent: true, big_request: None, collect_delay: Duration::from_millis(400) });
+    let Some(mut peer) = running.peer else {
+        return vec![("machinery:no-peer".into(), "the client never reached the fake peer".into())];
+    };
+    let log = running.log;
+    _ = peer.send_chunk(server_hello().as_bytes());
+    let patience = servers.prompt.max(Duration::from_secs(3));
+    let mut answered = 0;
+    for k in 1..=requests {
+        if peer.read_message(patience).is_none() {
+            break;
+        }
+        _ = peer.send_chunk(reply_for(k).as_bytes());
+        answered = k;
+    }
+    if answered < requests {
+        problems.push(("requests-not-received".into(), format!("only {answered} of {requests} requests reached the peer")));
+    }
+    // give the transport a moment to take the replies in, then hang up while the caller has not collected anything yet
+    std::thread::sleep(Duration::from_millis(60));
+    peer.close(kind);
+    if !wait_until(patience, || log.lock().unwrap().done) {
+        problems.push(("hang".into(), "the late collection of delivered replies did not finish".into()));
+    }
+    let l = log.lock().unwrap();
+    for k in 0..answered {
+        match l.results.get(k).and_then(|r| r.as_ref()) {
+            Some((Ok(v), _)) if *v == tag_for(k + 1) => {}
+            other => problems.push(("delivered-reply-lost".into(), format!("reply {} of {requests} was delivered completely before the peer hung up, but its late-collecting caller got {}", k + 1, format!("{:?}", other.map(|o| &o.0)).chars().take(160).collect::<String>()))),
+        }
+    }
+    drop(l);
+    running.task.abort();
     problems
 }
 
@@ -914,7 +1041,7 @@ pub fn run_framing(report: &mut Report) -> u64 {
     for xport in [Xport::Tls, Xport::Local, Xport::Ssh] {
         for caps in [vec![CAP_BASE_1_0, crate::mem::CAP_BASE_1_1, CAP_JUNOS], vec![crate::mem::CAP_BASE_1_1, CAP_JUNOS], vec![CAP_BASE_1_0]] {
             n += 1;
-            let running = start(&servers, xport, ClientPlan { requests: 1, followup: false, idle_before: Duration::ZERO, collect_after_all_sent: false, big_request: None });
+            let running = start(&servers, xport, ClientPlan { requests: 1, followup: false, idle_before: Duration::ZERO, collect_after_all_sent: false, big_request: None, collect_delay: Duration::ZERO });
             let Some(mut peer) = running.peer else { panic!("machinery failure: no peer on {xport:?}") };
             _ = peer.send_chunk(hello_msg(&caps, "77").as_bytes());
             let client_hello = peer.read_message(Duration::from_secs(3)).unwrap_or_default();
